@@ -73,6 +73,22 @@ CLAIMS['C09'] = (
     'is broken in the image so package resolution is outside the check',
     'DESIGN.md §6 C09')
 
+CLAIMS['C05'] = (
+    'exploration',
+    'bounded exhaustive source-path enumeration x target kinds on the real configure; injectivity decided for all pairs by dictionary build; must-collide scripts; source-tree snapshots',
+    'Every source path of 1-3 components over a component alphabet with dots, hidden names, equal stems and one/two '
+    'character names (thorough: every 1-2 character component over [a-z0-9._-]) is given to every target kind '
+    '(executable, static/shared library, object_files/copy_files with directory=, executable without intermediate '
+    'dirs) from the root script and from a submodule through ../; the real configure maps each to its implicit output '
+    '(read back from compile_commands.json); all pairs differing in a directory component or stem must get different '
+    'outputs inside the build directory (decided for ~8 million pairs by dictionary), each candidate confirmed by '
+    'configuring the pair in one target in-process and through the CLI. A catalogue of must-collide scripts must be '
+    'rejected on both backends without writing a build file, and the source tree is snapshotted (names, modes, '
+    'sizes, mtimes, hashes) around configure, build, regenerate, dist and clean.',
+    'trusted: compile_commands.json output fields as the statement of where a step writes (cross-checked by the '
+    'confirming pair configure); generated_source is not among the kinds explored',
+    'DESIGN.md §6 C05')
+
 # --- more claims are appended above this line ---
 NOT_YET = 'check not built yet in this session (see DESIGN.md §10 build order); not claimed until it is'
 NOT_APPLICABLE = {}
